@@ -121,6 +121,8 @@ def _worker_init(mir_path, modname, tier, seed):
     mod = importlib.import_module(modname)
     if hasattr(mod, 'install'):
         mod.install(Mx)
+    env_n = os.environ.get('VERIF_CVC5_SAMPLE')
+    interp.CROSS['left'] = int(env_n) if env_n not in (None, '') else (6 if tier == 'quick' else 40)
     _W['M'] = Mx
     _W['mod'] = mod
     _W['tier'] = tier
@@ -189,6 +191,8 @@ def _run_task(task):
     res['outcomes'] = ex.outcomes
     res['wall_s'] = time.time() - t0
     res['functions'] = dict(Mx.functions_encoded)
+    res['cross'] = {k: interp.CROSS[k] for k in ('asked', 'agreed', 'skipped', 'secs')}
+    interp.CROSS.update({'asked': 0, 'agreed': 0, 'skipped': 0, 'secs': 0.0})
     res['stubs'] = sorted(Mx.stubs_used)
     return res
 
@@ -436,6 +440,10 @@ def finish(pid, mod, tier, seed, results, t0, th, mir_s, tasks, timed_out=False)
         inconclusive.append('task %s: %s' % (r['task'], r['error'][:600]))
     for r in vacuous:
         inconclusive.append('task %s reached no obligation (vacuous)' % (r['task'],))
+    cross = {'asked': 0, 'agreed': 0, 'skipped': 0, 'secs': 0.0}
+    for r in results:
+        for k in cross:
+            cross[k] += (r.get('cross') or {}).get(k, 0)
     covers = {}
     for r in results:
         for k, n in r.get('covers', {}).items():
@@ -478,7 +486,7 @@ def finish(pid, mod, tier, seed, results, t0, th, mir_s, tasks, timed_out=False)
         pool = [(r['task'], s) for r in results for s in r['samples'][:1]]
         random.Random(seed + 17).shuffle(pool)
         for task, s_ in pool[:int(os.environ.get('VERIF_WITNESSES', '8'))]:
-            for ob in s_['obligations'][:3]:
+            for ob in [o for o in s_['obligations'] if 'witness' not in o][:3]:
                 v = {'obligation': ob, 'detail': 'witness', 'inputs': s_['inputs'], 'shape': s_['shape'], 'known': None, 'kind': 'property'}
                 try:
                     rr = mod.replay(v, native)
@@ -521,6 +529,8 @@ def finish(pid, mod, tier, seed, results, t0, th, mir_s, tasks, timed_out=False)
             'counterexamples_not_reproduced': len(mismatches),
             'inconclusive': inconclusive[:10],
             'reachability_witnesses': covers,
+            'second_solver': {'engine': 'cvc5 (SMT-LIB2 export of the z3 query)', 'queries_cross_checked': cross['asked'], 'agreed': cross['agreed'],
+                              'no_answer': cross['skipped'], 'secs': round(cross['secs'], 1)},
             'extra': agg.get('extra'),
         },
         'assumptions': getattr(mod, 'ASSUMPTIONS', []),
